@@ -11,7 +11,7 @@ func init() { register("C10", runC10) }
 
 // blockBody items of the restricted language used for the independent Go spec
 type bItem struct {
-	kind string // "text", "parent", "var", "block" (nested, base only), "setprint"
+	kind string // "text", "parent", "var", "block" / "forblock" / "ifblock" (nested), "wrap" (name = container, see c10_wrap.go)
 	text string
 	name string
 	body []bItem
@@ -32,6 +32,8 @@ type chainCase struct {
 	dyn    bool
 	// levels (other than the base) whose block bodies hold a nested block
 	nestedAt []int
+	// a nested block of an extending level stands inside further containers
+	wrapped bool
 }
 
 func (cc *chainCase) bodySrc(items []bItem) string {
@@ -50,6 +52,8 @@ func (cc *chainCase) bodySrc(items []bItem) string {
 			sb.WriteString("{% for i in [1, 2] %}<{{ i }}{% block " + it.name + " %}" + cc.bodySrc(it.body) + "{% endblock %}>{% endfor %}")
 		case "ifblock":
 			sb.WriteString("{% if t %}{% block " + it.name + " %}" + cc.bodySrc(it.body) + "{% endblock %}{% else %}NO{% endif %}")
+		case "wrap":
+			sb.WriteString(wrapSrc(it.name, cc.bodySrc(it.body)))
 		}
 	}
 	return sb.String()
@@ -144,6 +148,15 @@ func (cc *chainCase) spec(ctx map[string]any) (string, bool) {
 				}
 			case "ifblock":
 				sb.WriteString(renderBlock(it.name, it.body, tpl))
+			case "wrap":
+				if wrapSkipsBody(it.name) {
+					break // a branch that is not taken: its body is not rendered at all (a parent() there cannot fail)
+				}
+				inner := make([]string, wrapPasses(it.name))
+				for p := range inner {
+					inner[p] = renderItems(it.body, tpl, chain, lvl)
+				}
+				sb.WriteString(wrapOut(it.name, inner))
 			}
 		}
 		return sb.String()
@@ -193,9 +206,18 @@ func genChain(e *Env, nLevels, nBlocks int, pickChoice func() int) *chainCase {
 				lv.defs[b] = []bItem{}
 				lv.order = append(lv.order, b)
 			default: // define with parent()
-				lv.defs[b] = []bItem{{kind: "text", text: fmt.Sprintf("%s@%d[", b, i)}, {kind: "parent"}, {kind: "text", text: "]"}}
+				call := []bItem{{kind: "parent"}}
+				if rg.Intn(4) == 0 {
+					// the call stands inside one or two body-carrying constructs of the block body
+					call = randomWrap(rg, call, true)
+				}
+				lv.defs[b] = append(append([]bItem{{kind: "text", text: fmt.Sprintf("%s@%d[", b, i)}}, call...), bItem{kind: "text", text: "]"})
 				if rg.Intn(4) == 0 {
 					lv.defs[b] = append(lv.defs[b], bItem{kind: "var", name: "who"})
+				}
+				if rg.Intn(10) == 0 {
+					// … or the whole body does
+					lv.defs[b] = randomWrap(rg, lv.defs[b], false)
 				}
 				lv.order = append(lv.order, b)
 			}
@@ -204,7 +226,11 @@ func genChain(e *Env, nLevels, nBlocks int, pickChoice func() int) *chainCase {
 		// a child may also override a wrapper block of the base, reaching the nested block through parent()
 		for _, it := range cc.layout {
 			if it.kind == "block" && strings.HasPrefix(it.name, "wrap") && rg.Intn(2) == 0 {
-				lv.defs[it.name] = []bItem{{kind: "text", text: fmt.Sprintf("W%d<", i)}, {kind: "parent"}, {kind: "text", text: ">"}}
+				call := []bItem{{kind: "parent"}}
+				if rg.Intn(5) == 0 {
+					call = randomWrap(rg, call, false)
+				}
+				lv.defs[it.name] = append(append([]bItem{{kind: "text", text: fmt.Sprintf("W%d<", i)}}, call...), bItem{kind: "text", text: ">"})
 				lv.order = append(lv.order, it.name)
 				lv.outside = append(lv.outside, "")
 			}
@@ -303,6 +329,11 @@ func (cc *chainCase) nestInLevels(e *Env, blocks []string) {
 		nested := bItem{kind: pick(rg, []string{"block", "block", "forblock", "ifblock"}), name: x, body: inner}
 		at := rg.Intn(len(body) + 1)
 		nb := append([]bItem{}, body[:at]...)
+		if rg.Intn(4) == 0 {
+			// the nested block stands inside other body-carrying constructs (spaceless, apply, else branches, …)
+			nested = randomWrap(rg, []bItem{nested}, false)[0]
+			cc.wrapped = true
+		}
 		nb = append(nb, nested)
 		nb = append(nb, body[at:]...)
 		lv.defs[y] = nb
@@ -314,6 +345,7 @@ func runC10(e *Env) error {
 	r := e.Rep
 	r.Rule = "extends chains of 1–5 levels; each non-base level independently omits / defines / blanks / defines-with-parent() each of 1–3 blocks (all 4^(levels×blocks) assignments for ≤ 3 levels × ≤ 2 blocks, sampled beyond), base layout places blocks at top level, nested in a block, inside for and if; " +
 		"block bodies of one or two extending levels nest a block (plain, in for, in if) under a name the base layout nests too or that only the levels nest, overridden with and without parent() further down; " +
+		"parent() calls, whole override bodies and nested blocks also inside one or two body-carrying constructs (if / else / elseif branch, for body, for-else, spaceless, apply upper, branch not taken, conditional expression, set + print): every single container and every pair over 8 fixed chain shapes on every seed (pairs: 3 shapes in the quick tier), and sampled in the generated chains; " +
 		"the extends tag of each extending template in front of, between or behind its block definitions; " +
 		"static and computed parent names; text and prints outside blocks in children; oracle = an independent substitution spec written in the harness (implementation-only) and the Lean pipeline model; non-trivial = at least 2 levels and one override; distinct by template set"
 	ctx := map[string]any{"who": "W", "t": true}
@@ -337,6 +369,20 @@ func runC10(e *Env) error {
 				r.Hit("block-in-front-of-extends")
 				if lv.extPos >= len(lv.order) {
 					r.Hit("extends-tag-last")
+				}
+			}
+		}
+		if cc.wrapped {
+			r.Hit("nested-block-in-container")
+		}
+		if !strings.HasPrefix(tag, "w:") {
+			for _, lv := range cc.levels {
+				for _, b := range lv.order {
+					for _, it := range lv.defs[b] {
+						if it.kind == "wrap" {
+							r.Hit("random-container:" + it.name)
+						}
+					}
 				}
 			}
 		}
@@ -394,6 +440,27 @@ func runC10(e *Env) error {
 		if im.Class != "" || im.Out != c.want {
 			r.Violate(Violation{Key: "c10-corpus", What: fmt.Sprintf("corpus chain %d renders %q (%s), expected %q", i, im.Out, im.Class, c.want),
 				Broken: "C10 regression corpus", Replay: map[string]any{"kind": "chain", "templates": c.tpls, "want": c.want, "got": im.Out, "class": im.Class, "msg": im.Msg}})
+		}
+	}
+	// parent() and nested blocks inside every body-carrying construct of a block body (one container, and every pair
+	// of containers inside one another), over a fixed set of chain shapes: the same on every seed
+	for _, stack := range wrapStacks(true, true) {
+		shapes := wrapShapes(stack)
+		for _, shape := range []string{"override", "two-overrides", "through-parent", "nested-in-override", "nested-in-base-wrapper", "block-in-container", "layout-block-in-container", "override-with-text"} {
+			cc := shapes[shape]
+			if cc == nil || r.Full() {
+				continue
+			}
+			if len(stack) > 1 && shape != "override" && shape != "nested-in-override" && shape != "block-in-container" && !e.Thorough() {
+				continue
+			}
+			if err := runOne(cc, "w:"+shape+":"); err != nil {
+				return err
+			}
+			r.Hit("container-sweep:" + shape)
+			for _, k := range stack {
+				r.Hit("container:" + k)
+			}
 		}
 	}
 	// a parent chosen by the context: one engine, several renders with different contexts, each compared with a fresh engine
